@@ -209,7 +209,9 @@ def run_all(p: Pipeline, runs, targets):
         for t in targets:
             try:
                 v = p.run(**kw) if t is None else p.run(t, **kw)
-                row.append(v if isinstance(v, (int, str)) or v is None else repr(v)[:60])
+                if isinstance(v, (vcomp.Token, vcomp.Outer.Inner)):
+                    v = f"{type(v).__qualname__}({v.v})"
+                row.append(v if isinstance(v, (int, str)) or v is None else type(v).__name__)
             except Exception as e:
                 row.append("!" + type(e).__name__)
         out.append(row)
